@@ -660,6 +660,237 @@ theorem full_failure_leaves_only_the_temp (u : Nat) (code : Str → Path) (tmpdi
     rw [hacts', run2_fails u fs fails hfail]
     exact ⟨rfl, fun _ => rfl, fun f hfe => absurd hfe (hno f)⟩
 
+/-- **successful complete call**: when `WriteFileWithMode` — name check, any collisions, any callback behaviour —
+    returns nil, the destination holds exactly the bytes written with the requested mode less the umask, and EVERY
+    other path of the directory is as before (the temporary file was free before and is gone again) -/
+theorem full_commit_result (u : Nat) (code : Str → Path) (tmpdir filename c : Str) (N mode : Nat)
+    (pieces : List Bytes) (cb : CbMode) (fault : Fault) (rands : Nat → Nat) (ofaults : Nat → Option OpenFault)
+    (unlinkFails : Bool) (fs : FS) (hv : validName filename = some c)
+    (hclash : fs (code c) ≠ none ∨ ∀ j, code (tempName tmpdir (dirOf c) safePattern (rands j)) ≠ code c)
+    (hok : (writeFileFull code tmpdir filename N mode pieces cb fault rands ofaults unlinkFails fs).1 = .res .ok) :
+    run2 u fs (writeFileFull code tmpdir filename N mode pieces cb fault rands ofaults unlinkFails fs).2 (code c) =
+      some ⟨pieces.flatten, lessUmask mode u⟩ ∧
+    ∀ q, q ≠ code c →
+      run2 u fs (writeFileFull code tmpdir filename N mode pieces cb fault rands ofaults unlinkFails fs).2 q = fs q := by
+  obtain ⟨fails, hfail, _, hcase⟩ := createWithMode_spec code tmpdir filename mode rands ofaults fs
+  rcases hcase with ⟨c', j, hv', _, _, heq, hfree, _⟩ | ⟨hno, hacts⟩
+  · rw [hv] at hv'; cases hv'
+    have hne : code (tempName tmpdir (dirOf c) safePattern (rands j)) ≠ code c := by
+      rcases hclash with h | h
+      · intro e; rw [e] at hfree; exact h hfree
+      · exact h j
+    rw [writeFileFull_eq code tmpdir filename N mode pieces cb fault rands ofaults unlinkFails fs _ _ fails heq] at hok ⊢
+    simp only at hok ⊢
+    have hok' : (writeFile (code (tempName tmpdir (dirOf c) safePattern (rands j))) (code c) N mode pieces cb fault).1 = .ok := by
+      injection hok
+    -- a successful run issues no unlink: the unlink fault has nothing to bite on
+    have hnou : mapU unlinkFails (writeFile (code (tempName tmpdir (dirOf c) safePattern (rands j))) (code c) N mode pieces cb fault).2 =
+        (writeFile (code (tempName tmpdir (dirOf c) safePattern (rands j))) (code c) N mode pieces cb fault).2.map .base := by
+      apply mapU_noUnlink
+      have hok'' := hok'
+      rw [writeFile_closed] at hok'' ⊢
+      obtain ⟨ws, tl, hacts, hws, _, hiff, _⟩ :=
+        writeFile_shape (code (tempName tmpdir (dirOf c) safePattern (rands j))) (code c) N mode pieces fault
+      rw [hacts, hiff.mp hok'']
+      intro a ha
+      simp only [List.mem_append, List.mem_singleton] at ha
+      rcases ha with (rfl | ha) | ha
+      · rfl
+      · exact onlyWrites_noUnlink _ ws hws a ha
+      · simp at ha; rcases ha with rfl | rfl <;> rfl
+    rw [hnou, run2_append, run2_fails u fs fails hfail, run2_map_base]
+    obtain ⟨h1, h2, h3⟩ := commit_result u fs _ (code c) hne N mode pieces cb fault hok'
+    refine ⟨h1, ?_⟩
+    intro q hq
+    by_cases hqt : q = code (tempName tmpdir (dirOf c) safePattern (rands j))
+    · rw [hqt, h2, hfree]
+    · exact h3 q hqt hq
+  · exfalso
+    have : (writeFileFull code tmpdir filename N mode pieces cb fault rands ofaults unlinkFails fs).1 ≠ .res .ok := by
+      unfold writeFileFull
+      generalize createWithMode code tmpdir filename mode rands ofaults fs = r at hno
+      obtain ⟨r1, r2⟩ := r
+      cases r1 with
+      | ok f => exact absurd rfl (hno f)
+      | invalid => simp [CreateRes.err]
+      | temp e => cases e <;> simp [CreateRes.err] <;> exact absurd rfl (hno _)
+    exact this hok
+
+/-- **the safe.File API, complete, with a failing unlink**: `CreateWithMode` (name check, any collisions and open
+    faults), one `Write` per piece, then `Commit` + `Close` or `Close` alone, under any fault of write/close/rename and a
+    `Remove` that fails or not — after every prefix of the system calls the destination holds its old state or exactly
+    the bytes written -/
+theorem full_history_dest_old_or_new (u : Nat) (code : Str → Path) (tmpdir filename c : Str) (mode : Nat)
+    (pieces : List Bytes) (doCommit : Bool) (fault : Fault) (rands : Nat → Nat) (ofaults : Nat → Option OpenFault)
+    (unlinkFails : Bool) (fs : FS) (k : Nat) (hv : validName filename = some c)
+    (hclash : fs (code c) ≠ none ∨ ∀ j, code (tempName tmpdir (dirOf c) safePattern (rands j)) ≠ code c) :
+    run2 u fs ((fileRunFull code tmpdir filename mode pieces doCommit fault rands ofaults unlinkFails fs).2.take k) (code c) =
+      fs (code c) ∨
+    run2 u fs ((fileRunFull code tmpdir filename mode pieces doCommit fault rands ofaults unlinkFails fs).2.take k) (code c) =
+      some ⟨pieces.flatten, lessUmask mode u⟩ := by
+  obtain ⟨fails, hfail, _, hcase⟩ := createWithMode_spec code tmpdir filename mode rands ofaults fs
+  rcases hcase with ⟨c', j, hv', _, _, heq, hfree, _⟩ | ⟨hno, hacts⟩
+  · rw [hv] at hv'; cases hv'
+    rw [(fileRunFull_acts code tmpdir filename mode pieces doCommit fault rands ofaults unlinkFails fs _ _ fails heq).1,
+      run2_take_fails_append u fs fails _ hfail]
+    obtain ⟨k', hk'⟩ := mapU_prefix_sim u fs unlinkFails _ (fileRun_unlinkLast _ (code c) mode pieces doCommit fault).1
+      (k - fails.length)
+    rw [hk']
+    have hne : code (tempName tmpdir (dirOf c) safePattern (rands j)) ≠ code c := by
+      rcases hclash with h | h
+      · intro e; rw [e] at hfree; exact h hfree
+      · exact h j
+    exact file_api_dest_old_or_new u fs _ (code c) hne mode pieces doCommit fault k'
+  · left
+    have : (fileRunFull code tmpdir filename mode pieces doCommit fault rands ofaults unlinkFails fs).2 = fails := by
+      unfold fileRunFull
+      generalize createWithMode code tmpdir filename mode rands ofaults fs = r at hno hacts
+      obtain ⟨r1, r2⟩ := r
+      cases r1 with
+      | ok f => exact absurd rfl (hno f)
+      | invalid => exact hacts
+      | temp e => exact hacts
+    rw [this, run2_fails u fs _ (fun a ha => hfail a (List.mem_of_mem_take ha))]
+
+/-- **the File API, complete: what a run that does not commit leaves behind** (Close without Commit, or any failure):
+    the destination and every other path except the temporary file are exactly as before; the temporary file is gone
+    too unless the unlink failed — then, and only then, it may remain -/
+theorem full_history_failure_leaves_only_the_temp (u : Nat) (code : Str → Path) (tmpdir filename c : Str) (mode : Nat)
+    (pieces : List Bytes) (doCommit : Bool) (fault : Fault) (rands : Nat → Nat) (ofaults : Nat → Option OpenFault)
+    (unlinkFails : Bool) (fs : FS) (hv : validName filename = some c)
+    (hclash : fs (code c) ≠ none ∨ ∀ j, code (tempName tmpdir (dirOf c) safePattern (rands j)) ≠ code c)
+    (hf : ¬ ((fileRunFull code tmpdir filename mode pieces doCommit fault rands ofaults unlinkFails fs).1 = .res .ok ∧
+      doCommit = true)) :
+    run2 u fs (fileRunFull code tmpdir filename mode pieces doCommit fault rands ofaults unlinkFails fs).2 (code c) =
+      fs (code c) ∧
+    ((∀ f, (createWithMode code tmpdir filename mode rands ofaults fs).1 ≠ .ok f) →
+      run2 u fs (fileRunFull code tmpdir filename mode pieces doCommit fault rands ofaults unlinkFails fs).2 = fs) ∧
+    (∀ f, (createWithMode code tmpdir filename mode rands ofaults fs).1 = .ok f →
+      (∀ q, q ≠ f.tmp →
+        run2 u fs (fileRunFull code tmpdir filename mode pieces doCommit fault rands ofaults unlinkFails fs).2 q = fs q) ∧
+      (unlinkFails = false →
+        run2 u fs (fileRunFull code tmpdir filename mode pieces doCommit fault rands ofaults unlinkFails fs).2 = fs)) := by
+  obtain ⟨fails, hfail, _, hcase⟩ := createWithMode_spec code tmpdir filename mode rands ofaults fs
+  rcases hcase with ⟨c', j, hv', _, _, heq, hfree, _⟩ | ⟨hno, hacts⟩
+  · rw [hv] at hv'; cases hv'
+    have hne : code (tempName tmpdir (dirOf c) safePattern (rands j)) ≠ code c := by
+      rcases hclash with h | h
+      · intro e; rw [e] at hfree; exact h hfree
+      · exact h j
+    obtain ⟨hacts, hres⟩ :=
+      fileRunFull_acts code tmpdir filename mode pieces doCommit fault rands ofaults unlinkFails fs _ _ fails heq
+    -- the run of the first model does not commit either
+    have hf' : ¬ ((fileRun (code (tempName tmpdir (dirOf c) safePattern (rands j))) (code c) mode pieces doCommit fault).1 = .ok ∧
+        doCommit = true) := by
+      intro ⟨h1, h2⟩
+      apply hf
+      refine ⟨?_, h2⟩
+      rcases hres with h | ⟨_, h3, _, _⟩
+      · rw [h, h1]
+      · rw [h2] at h3; cases h3
+    obtain ⟨body, hbody, hsplit, htargets⟩ := (fileRun_unlinkLast _ (code c) mode pieces doCommit fault).2 hf'
+    rw [hacts]
+    have key : ∀ q, q ≠ code (tempName tmpdir (dirOf c) safePattern (rands j)) →
+        run2 u fs (fails ++ mapU unlinkFails
+          (fileRun (code (tempName tmpdir (dirOf c) safePattern (rands j))) (code c) mode pieces doCommit fault).2) q = fs q := by
+      intro q hq
+      rw [run2_append, run2_fails u fs fails hfail, hsplit]
+      cases unlinkFails with
+      | true =>
+        rw [mapU_true_final u fs body hbody]
+        exact run_untouched u fs q body (fun a ha => htargets a ha q hq)
+      | false =>
+        rw [mapU_false, run2_map_base]
+        apply run_untouched
+        intro a ha
+        rcases List.mem_append.mp ha with h | h
+        · exact htargets a h q hq
+        · simp at h; subst h; simp [targets, hq]
+    refine ⟨key (code c) (fun e => hne e.symm), fun hno => absurd (by rw [heq]) (hno _), ?_⟩
+    intro f hfe
+    rw [heq] at hfe
+    simp only [CreateRes.ok.injEq] at hfe
+    subst hfe
+    refine ⟨key, ?_⟩
+    intro hu
+    subst hu
+    funext q
+    by_cases hq : q = code (tempName tmpdir (dirOf c) safePattern (rands j))
+    · rw [hq, run2_append, run2_fails u fs fails hfail, mapU_false, run2_map_base,
+        (file_api_abort_or_failure_clean u fs _ (code c) hne mode pieces doCommit fault hf').2, hfree]
+    · exact key q hq
+  · have hacts' : (fileRunFull code tmpdir filename mode pieces doCommit fault rands ofaults unlinkFails fs).2 = fails := by
+      unfold fileRunFull
+      generalize createWithMode code tmpdir filename mode rands ofaults fs = r at hno hacts
+      obtain ⟨r1, r2⟩ := r
+      cases r1 with
+      | ok f => exact absurd rfl (hno f)
+      | invalid => exact hacts
+      | temp e => exact hacts
+    rw [hacts', run2_fails u fs fails hfail]
+    exact ⟨rfl, fun _ => rfl, fun f hfe => absurd hfe (hno f)⟩
+
+/-- **successful Commit through the complete File API**: exactly the bytes written, every other path as before -/
+theorem full_history_commit_result (u : Nat) (code : Str → Path) (tmpdir filename c : Str) (mode : Nat)
+    (pieces : List Bytes) (fault : Fault) (rands : Nat → Nat) (ofaults : Nat → Option OpenFault)
+    (unlinkFails : Bool) (fs : FS) (hv : validName filename = some c)
+    (hclash : fs (code c) ≠ none ∨ ∀ j, code (tempName tmpdir (dirOf c) safePattern (rands j)) ≠ code c)
+    (hok : (fileRunFull code tmpdir filename mode pieces true fault rands ofaults unlinkFails fs).1 = .res .ok) :
+    run2 u fs (fileRunFull code tmpdir filename mode pieces true fault rands ofaults unlinkFails fs).2 (code c) =
+      some ⟨pieces.flatten, lessUmask mode u⟩ ∧
+    ∀ q, q ≠ code c →
+      run2 u fs (fileRunFull code tmpdir filename mode pieces true fault rands ofaults unlinkFails fs).2 q = fs q := by
+  obtain ⟨fails, hfail, _, hcase⟩ := createWithMode_spec code tmpdir filename mode rands ofaults fs
+  rcases hcase with ⟨c', j, hv', _, _, heq, hfree, _⟩ | ⟨hno, hacts⟩
+  · rw [hv] at hv'; cases hv'
+    have hne : code (tempName tmpdir (dirOf c) safePattern (rands j)) ≠ code c := by
+      rcases hclash with h | h
+      · intro e; rw [e] at hfree; exact h hfree
+      · exact h j
+    obtain ⟨hacts, hres⟩ :=
+      fileRunFull_acts code tmpdir filename mode pieces true fault rands ofaults unlinkFails fs _ _ fails heq
+    have hok' : (fileRun (code (tempName tmpdir (dirOf c) safePattern (rands j))) (code c) mode pieces true fault).1 = .ok := by
+      rcases hres with h | ⟨_, h3, _, _⟩
+      · rw [h] at hok; injection hok
+      · cases h3
+    obtain ⟨ws, tl, hshape, hws, _, hiff, hcommit⟩ :=
+      fileRun_shape (code (tempName tmpdir (dirOf c) safePattern (rands j))) (code c) mode pieces true fault
+    have htl := hiff.mpr ⟨hok', rfl⟩
+    have hnou : mapU unlinkFails (fileRun (code (tempName tmpdir (dirOf c) safePattern (rands j))) (code c) mode pieces true fault).2 =
+        (fileRun (code (tempName tmpdir (dirOf c) safePattern (rands j))) (code c) mode pieces true fault).2.map .base := by
+      apply mapU_noUnlink
+      rw [hshape, htl]
+      intro a ha
+      simp only [List.mem_append, List.mem_singleton] at ha
+      rcases ha with (rfl | ha) | ha
+      · rfl
+      · exact onlyWrites_noUnlink _ ws hws a ha
+      · simp at ha; rcases ha with rfl | rfl <;> rfl
+    rw [hacts, hnou, run2_append, run2_fails u fs fails hfail, run2_map_base]
+    obtain ⟨hd, ht⟩ := file_api_commit_result u fs _ (code c) hne mode pieces fault hok'
+    refine ⟨hd, ?_⟩
+    intro q hq
+    by_cases hqt : q = code (tempName tmpdir (dirOf c) safePattern (rands j))
+    · rw [hqt, ht, hfree]
+    · rw [hshape, htl, hcommit htl]
+      apply run_untouched
+      intro a ha
+      simp only [List.mem_append, List.mem_singleton] at ha
+      rcases ha with (rfl | ha) | ha
+      · simp [targets, hqt]
+      · simp at ha; obtain ⟨x, _, rfl⟩ := ha; simp [targets, hqt]
+      · simp at ha; rcases ha with rfl | rfl <;> simp [targets, hqt, hq]
+  · exfalso
+    have : (fileRunFull code tmpdir filename mode pieces true fault rands ofaults unlinkFails fs).1 ≠ .res .ok := by
+      unfold fileRunFull
+      generalize createWithMode code tmpdir filename mode rands ofaults fs = r at hno
+      obtain ⟨r1, r2⟩ := r
+      cases r1 with
+      | ok f => exact absurd rfl (hno f)
+      | invalid => simp [CreateRes.err]
+      | temp e => cases e <;> simp [CreateRes.err] <;> exact absurd rfl (hno _)
+    exact this hok
+
 /-- **which cleanup reports the unlink error**: `Close` without `Commit` returns it when (and only when) closing the
     descriptor succeeded; `Commit` never does — it returns the close or rename error that sent it to the cleanup.
     In both the destination is not named by any action. -/
